@@ -443,7 +443,7 @@ class CxxHarness:
         self.file = A.inline_groups(file)
         self.dm = {k: d for k, d in A.decl_map(self.file).items() if k not in set(self.exclude)}
         self.ns = "pvg_" + self.name
-        self.dir = os.path.join(build.WORK, "cxx", self.name)
+        self.dir = os.path.join(build.WORK, "cxx", build._repo_tag(), self.name)
         self.header_name = self.name + ".h"
         self.header = None
         self.values = {}
